@@ -167,6 +167,72 @@ Theorem C04_has_group_edge_witness :
 Proof. exact has_group_edge_witness. Qed.
 Print Assumptions C04_has_group_edge_witness.
 
+(* ---- webhook-body-shadowed (parse side): in a call_webhook row `webhook.body` and `message_text` denote the
+   same field; the exporter writes the body under `webhook.body` and the rectangular sheet gives the row a blank
+   `message_text` cell.  Over E2's model of parse_row (Row/RowParse.v: rekey_put follows the tree through the probe
+   rekey_blank_keeps, translator/tables_rowfix.py). *)
+From RPFT Require Import Base.ODict Row.RowParse Row.FlowHeaderFacts Row.BlankAliasFacts Row.WebhookBodyFacts.
+
+(* the full statement — a blank cell under a header whose field already has a cell earlier in the row does not
+   change what the row parses to — holds on the repaired tree and is refuted by the row of the finding otherwise *)
+Theorem C04_blank_alias_inert_decided :
+  if rekey_blank_keeps
+  then forall l1 l2 h h0 v0 k,
+         h <> cx_sw_column FlowHeaderFacts.flow_cx ->
+         In (h0, v0) l1 ->
+         ctx_h2f flow_ctx (l1 ++ l2) h0 = Ok k ->
+         ctx_h2f flow_ctx (l1 ++ l2) h = Ok k ->
+         flow_parse (l1 ++ (h, []) :: l2) = flow_parse (l1 ++ l2)
+  else ~ (forall l1 l2 h h0 v0 k,
+         h <> cx_sw_column FlowHeaderFacts.flow_cx ->
+         In (h0, v0) l1 ->
+         ctx_h2f flow_ctx (l1 ++ l2) h0 = Ok k ->
+         ctx_h2f flow_ctx (l1 ++ l2) h = Ok k ->
+         flow_parse (l1 ++ (h, []) :: l2) = flow_parse (l1 ++ l2)).
+Proof. exact blank_alias_inert_decided. Qed.
+Print Assumptions C04_blank_alias_inert_decided.
+
+(* any row model, with or without row context (the statement the flow instance above is made from) *)
+Theorem C04_blank_alias_inert_repaired :
+  rekey_blank_keeps = true ->
+  forall rm l1 l2 h h0 v0 k,
+    same_type_cell (rm_ctx rm) (l1 ++ (h, []) :: l2) (l1 ++ l2) ->
+    In (h0, v0) l1 ->
+    ctx_h2f (rm_ctx rm) (l1 ++ l2) h0 = Ok k ->
+    ctx_h2f (rm_ctx rm) (l1 ++ l2) h = Ok k ->
+    parse_row rm (l1 ++ (h, []) :: l2) = parse_row rm (l1 ++ l2).
+Proof. intros E rm l1 l2 h h0 v0 k. exact (parse_blank_alias_inert rm l1 l2 h h0 v0 k E). Qed.
+Print Assumptions C04_blank_alias_inert_repaired.
+
+(* the row of the finding: it always parses; its body is the body written iff the tree keeps the earlier value *)
+Theorem C04_webhook_body_witness :
+  is_ok (flow_parse w_row_exported) = true
+  /\ body_of (flow_parse w_row_plain) = Some [98; 111; 100; 121; 32; 111; 110; 101]%N
+  /\ body_of (flow_parse w_row_exported) = Some (if rekey_blank_keeps then [98; 111; 100; 121; 32; 111; 110; 101]%N else []).
+Proof. exact webhook_body_witness. Qed.
+Print Assumptions C04_webhook_body_witness.
+
+(* the row the exporter model writes for a call_webhook node (unparse_row on the regenerated FlowRowModel), padded
+   with the blank message_text cell of the sheet, read back *)
+Theorem C04_webhook_export_padded_witness :
+  match flow_unparse (hook_row []) false with
+  | Ok cells =>
+      oget str_eqb cells (s_webhook ++ [46%N] ++ s_body) = Some [98%N] /\ oget str_eqb cells w_header = None
+      /\ flow_parse cells = Ok (hook_row [])
+      /\ (if rekey_blank_keeps then flow_parse (padded_with_message_text cells) = Ok (hook_row [])
+          else is_ok (flow_parse (padded_with_message_text cells)) = true
+               /\ body_of (flow_parse (padded_with_message_text cells)) = Some [])
+  | Err _ => False
+  end.
+Proof. exact webhook_export_padded_witness. Qed.
+Print Assumptions C04_webhook_export_padded_witness.
+
+(* where the blank cell stands does not matter for the body once the tree keeps the earlier value (the blank cell
+   BEFORE the body never mattered, on either tree) *)
+Theorem C04_webhook_body_blank_first : body_of (flow_parse w_row_blank_first) = Some [98; 111; 100; 121; 32; 111; 110; 101]%N.
+Proof. exact webhook_body_blank_first. Qed.
+Print Assumptions C04_webhook_body_blank_first.
+
 (* ------------------------------------------------------------------------------------------------
    The exported rows MEAN the flow (Exp/Means*.v).  For every flow of a family (MeansFamily.exportable, decidable):
    if the exporter model gives rows, the rows have a reference meaning (Flow/RowSem.v: rowsem of Means.abs_rows, the
@@ -240,9 +306,9 @@ Proof. exact ex_router_exportable. Qed.
 Print Assumptions C04_to_rows_means_flow_routers_nonvacuous.
 
 (* COROLLARY: the round trip over the two models.  On the intersection of the family with the fragment of C02
-   (Comp/Refine.v: fragb — no named categories on edges, no split_random, no node ids: so strip_uuids, one action per node, basic
-   nodes / group splits / the rows the fragment covers), the flow the compiler model makes of the exported rows and the original flow
-   are both trace-equal, labels matched up to the names the sheet does not fix, to one reference flow: the meaning of the rows.
+   (Comp/Refine.v: fragb, a premise: whatever the refinement theorem of C02 covers - since comp2 also named categories, split_random
+   and rows merged through the node name; hence with or without strip_uuids, the `_nodeId` column being the row's node name), the
+   flow the compiler model makes of the exported rows and the original flow are both trace-equal, labels matched up to the names the sheet does not fix, to one reference flow: the meaning of the rows.
    (Exp/MeansComp.v; only composes C04_to_rows_means_flow_partial with C02_compile_refines_rowsem_std.) *)
 From RPFT Require Import Comp.Compile Comp.Refine Exp.MeansComp.
 Theorem C04_roundtrip_model_partial :
@@ -250,11 +316,11 @@ Theorem C04_roundtrip_model_partial :
   compile_checks_node_uuids = true ->
   forall (U : Type) (ueqb : U -> U -> bool), (forall a b, ueqb a b = true <-> a = b) ->
   forall (ustr : U -> str), (forall a b, ustr a = ustr b -> a = b) -> (forall a, ustr a <> []) ->
-  forall numbered (ns : list (ToRows.node U)) rows name f,
-    exportable U ueqb ns = true -> single_rows U ns = true ->
-    to_rows ueqb numbered ns = Ok rows -> fragb (crows_of U ustr rows) = true ->
-    compile std_fresh name (crows_of U ustr rows) = Ok f ->
-    exists ref, rowsem Means.nab (abs_rows U ustr true rows) = Some ref
+  forall numbered strip_uuids (ns : list (ToRows.node U)) rows name f,
+    exportable U ueqb ns = true -> (strip_uuids = true -> single_rows U ns = true) ->
+    to_rows ueqb numbered ns = Ok rows -> fragb (crows_of U ustr strip_uuids rows) = true ->
+    compile std_fresh name (crows_of U ustr strip_uuids rows) = Ok f ->
+    exists ref, rowsem Means.nab (abs_rows U ustr strip_uuids rows) = Some ref
       /\ (forall t, traces (flow_of U ustr ns) t -> exists t', traces ref t' /\ Forall2 (ematch sexp (fun a b => smatch b a)) t t')
       /\ (forall t, traces ref t -> exists t', traces (flow_of U ustr ns) t' /\ Forall2 (ematch sexp smatch) t t')
       /\ (forall t, traces ref t -> exists t', traces f t' /\ Forall2 (ematch sexp smatch) t t')
@@ -264,6 +330,12 @@ Print Assumptions C04_roundtrip_model_partial.
 
 (* non-vacuity: message -> group split (member: on; otherwise back to the start: a cycle) -> message: in the family, in the
    fragment, and the compiler model makes a flow of three nodes of its exported rows *)
-Example C04_roundtrip_model_nonvacuous : if all_repairs then rt_outcome ex_rt = Some (true, true, 3%nat) else True.
+Example C04_roundtrip_model_nonvacuous : if all_repairs then rt_outcome true ex_rt = Some (true, true, 3%nat) else True.
 Proof. exact ex_rt_facts. Qed.
 Print Assumptions C04_roundtrip_model_nonvacuous.
+
+(* the same with node names (no strip_uuids), and for the cycle whose third node has two actions (two rows, merged through the name) *)
+Example C04_roundtrip_model_named_nonvacuous :
+  if all_repairs then rt_outcome false ex_rt = Some (true, true, 3%nat) /\ rt_outcome false ex_cycle = Some (true, true, 3%nat) else True.
+Proof. exact ex_rt_named_facts. Qed.
+Print Assumptions C04_roundtrip_model_named_nonvacuous.
